@@ -10,7 +10,7 @@ import DnsModel.CAbi
 import DnsModel.Threads
 namespace Dns
 
-/-- cursor script: `set n`, `inc n`, `rdlen`, `ednsrdlen` — one result per step, then the offset -/
+/-- cursor script: `set n`, `inc n`, `rdlen`, `ednsrdlen`, a final `parse` — one result per step, then the offset -/
 def cursorSteps (p : Bytes) : List String → Sector → List String → String
   | [], s, acc => String.intercalate " " (acc.reverse ++ [s!"off={s.offset}"])
   | "set" :: n :: rest, s, acc =>
@@ -25,6 +25,10 @@ def cursorSteps (p : Bytes) : List String → Sector → List String → String
     cursorSteps p rest s ((fmtRes toString (Sector.rrRdlen p s)).replace " " ":" :: acc)
   | "ednsrdlen" :: rest, s, acc =>
     cursorSteps p rest s ((fmtRes toString (Sector.ednsRrRdlen p s)).replace " " ":" :: acc)
+  -- `parse` (last step; it consumes the sector): the verdict is that of a fresh sector over the same bytes,
+  -- wherever the cursor calls left the cursor
+  | ["parse"], s, acc =>
+    String.intercalate " " (acc.reverse ++ [s!"off={s.offset}", "parse=" ++ (fmtRes fmtView (parse p)).replace " " ":"])
   | _ :: _, _, _ => "bad-op"
 
 def secOfTag (t : String) : Option (Section × Bool) :=
@@ -144,13 +148,26 @@ def parseTStep (w : String) : Option TStep :=
   | some t, ['r'] => some (.read t)
   | _, _ => none
 
+/-- `<tid>s<k>`: a table call on thread `tid` that succeeds (kind `k`): it returns 0 and is no step of the slot
+machine (the description of the thread's last failure stays what it was) -/
+def parseSuccess (w : String) : Option Tid :=
+  let ds := w.toList.takeWhile Char.isDigit
+  let rest := w.toList.drop ds.length
+  match (String.ofList ds).toNat?, rest with
+  | some t, 's' :: k => ((String.ofList k).toNat?).map (fun _ => t)
+  | _, _ => none
+
 def runErrslots (ws : List String) : String :=
-  let steps := ws.map parseTStep
+  let steps : List (Option (Sum TStep Tid)) := ws.map (fun w =>
+    match parseTStep w with
+    | some st => some (.inl st)
+    | none => (parseSuccess w).map .inr)
   if steps.any Option.isNone then "bad-op" else
   let steps := steps.filterMap id
-  let rec go (s : Slots) : List TStep → List String → List String
+  let rec go (s : Slots) : List (Sum TStep Tid) → List String → List String
     | [], acc => acc.reverse
-    | st :: rest, acc =>
+    | .inr t :: rest, acc => go s rest (s!"t{t}s=0" :: acc)
+    | .inl st :: rest, acc =>
       let (s', o) := tstep s st
       let txt := match st, o with
         | .fail t _, _ => s!"t{t}f=-1"
